@@ -13,6 +13,9 @@
 (*   case    graph (mode, nodes, edges, fail), the forced order / probe    *)
 (*   exec    body of node n begins, with its input i (rendered canonically)*)
 (*   done    body of n returns its term       failed  body of n fails      *)
+(*   abort   body of a rerun node asks for InterruptAndRerun (1st attempt) *)
+(*   interrupt  the call returned an interrupt (rerun list)   resume  the  *)
+(*           next call with the same checkpoint id begins                  *)
 (*   gate    outcome of a wait inside a body: kind order | probe,          *)
 (*           res met | released (the run had returned) | timeout           *)
 (*   result  value returned by Invoke         error   class, node          *)
@@ -63,21 +66,38 @@ IsBatch(g) == g.mode \in {"dag", "pregel"}
 FailKindOf(g, n) == IF \E f \in Range(g.fail) : f.n = n THEN (CHOOSE f \in Range(g.fail) : f.n = n).kind ELSE "none"
 
 NoRef == [grp |-> "", has |-> FALSE, res |-> "", ex |-> {}]
-Idle == [g |-> [id |-> "", grp |-> ""], begun |-> {}, done |-> {}, failed |-> {}, execs |-> {}, st |-> "idle", bad |-> "", ref |-> NoRef]
+\* aborted: nodes whose attempt asked for interrupt-and-rerun in the current call; redo: the same after the interrupt was returned
+\* (they execute once more after the resume); execs holds <<node, input, attempt>>
+Idle == [g |-> [id |-> "", grp |-> ""], begun |-> {}, done |-> {}, failed |-> {}, aborted |-> {}, redo |-> {}, execs |-> {},
+         st |-> "idle", bad |-> "", ref |-> NoRef]
 Bad(S, why) == [S EXCEPT !.st = "skip", !.bad = why]
-Running(S) == S.begun \ (S.done \cup S.failed)
+Running(S) == S.begun \ (S.done \cup S.failed \cup S.aborted \cup S.redo)
+RerunNodes(g) == Range(g.rerun)
 
-OnCase(S, e) == [g |-> e, begun |-> {}, done |-> {}, failed |-> {}, execs |-> {}, st |-> "run", bad |-> "",
+OnCase(S, e) == [g |-> e, begun |-> {}, done |-> {}, failed |-> {}, aborted |-> {}, redo |-> {}, execs |-> {}, st |-> "run", bad |-> "",
                  ref |-> IF e.grp = S.ref.grp THEN S.ref ELSE [NoRef EXCEPT !.grp = e.grp]]
 
 OnExec(S, e) == LET g == S.g  n == e.n IN
   IF n \notin GNodes(g) THEN Bad(S, "exec-of-unknown-node")
-  ELSE IF n \in S.begun THEN Bad(S, "node-executed-twice")
+  ELSE IF n \in S.begun /\ n \notin S.redo THEN Bad(S, "node-executed-twice")
   ELSE IF \E p \in CtrlPreds(g, n) \ {START} : p \in Running(S) \/ (g.branches = <<>> /\ p \notin S.done)
        THEN Bad(S, "exec-before-predecessor-finished")
-  ELSE IF \E s \in S.begun : n \in CtrlPreds(g, s) THEN Bad(S, "predecessor-started-after-successor")
+  ELSE IF n \notin S.redo /\ \E s \in S.begun : n \in CtrlPreds(g, s) THEN Bad(S, "predecessor-started-after-successor")
   ELSE IF IsBatch(g) /\ \E m \in Running(S) : LevelOf(g, m) < LevelOf(g, n) THEN Bad(S, "batch-step-overlap")
-  ELSE [S EXCEPT !.begun = S.begun \cup {n}, !.execs = S.execs \cup {<<n, e.i>>}]
+  ELSE [S EXCEPT !.begun = S.begun \cup {n}, !.redo = S.redo \ {n}, !.execs = S.execs \cup {<<n, e.i, IF n \in S.redo THEN 2 ELSE 1>>}]
+
+\* the attempt of a rerun node ended with InterruptAndRerun
+OnAbort(S, e) == IF e.n \notin Running(S) THEN Bad(S, "abort-of-node-not-running")
+                 ELSE IF e.n \notin RerunNodes(S.g) \/ \E x \in S.execs : x[1] = e.n /\ x[3] = 2 THEN Bad(S, "unconfigured-abort")
+                 ELSE [S EXCEPT !.aborted = S.aborted \cup {e.n}]
+\* the call returned an interrupt: the run loop has waited for everything it started (waitAll, batch and eager alike), every
+\* aborted attempt is reported for rerun and nothing else
+OnInterrupt(S, e) ==
+  IF S.aborted = {} THEN Bad(S, "interrupt-without-aborted-execution")
+  ELSE IF Running(S) # {} THEN Bad(S, "interrupt-returned-while-node-running")
+  ELSE IF Range(e.rerun) # S.aborted THEN Bad(S, "aborted-execution-not-reported-for-rerun")
+  ELSE [S EXCEPT !.redo = S.redo \cup S.aborted, !.aborted = {}, !.st = "interrupted"]
+OnResume(S, e) == [S EXCEPT !.st = "run"]
 
 OnDone(S, e) == IF e.n \notin Running(S) THEN Bad(S, "done-of-node-not-running")
                 ELSE IF FailKindOf(S.g, e.n) # "none" THEN Bad(S, "failing-node-returned-a-value")
@@ -102,9 +122,10 @@ Compare(S, res, ex) ==
 
 OnResult(S, e) == LET g == S.g  anc == DepOf(g, END) IN
   IF S.failed \cap anc # {} THEN Bad(S, "result-although-a-feeding-node-failed")
+  ELSE IF (S.redo \cup S.aborted) \cap anc # {} THEN Bad(S, "result-without-rerun-of-interrupted-node")
   ELSE IF \E p \in anc : p \notin S.done THEN Bad(S, "return-before-end-feeders-finished")
   ELSE IF IsBatch(g) /\ Running(S) # {} THEN Bad(S, "return-while-step-node-running")
-  ELSE Compare(S, "ok:" \o e.v, {x \in S.execs : x[1] \in anc})
+  ELSE Compare(S, "ok:" \o e.v, {x \in S.execs : x[1] \in anc})              \* all calls of the case: interrupted + resumed
 
 OnError(S, e) == LET g == S.g IN
   IF e.class = "hang" THEN Bad(S, "run-hangs")
@@ -116,11 +137,14 @@ OnError(S, e) == LET g == S.g IN
 
 Apply(S, e) ==
   IF e.ev = "case" THEN OnCase(S, e)
+  ELSE IF S.st = "interrupted" THEN (IF e.ev = "resume" THEN OnResume(S, e) ELSE S)
   ELSE IF S.st # "run" THEN S                        \* rest of a rejected run; late events after the return
   ELSE IF e.ev = "builderror" THEN [S EXCEPT !.st = "ended", !.bad = "NOTE:builderror"]
   ELSE IF e.ev = "exec" THEN OnExec(S, e)
   ELSE IF e.ev = "done" THEN OnDone(S, e)
   ELSE IF e.ev = "failed" THEN OnFailed(S, e)
+  ELSE IF e.ev = "abort" THEN OnAbort(S, e)
+  ELSE IF e.ev = "interrupt" THEN OnInterrupt(S, e)
   ELSE IF e.ev = "gate" THEN OnGate(S, e)
   ELSE IF e.ev = "result" THEN OnResult(S, e)
   ELSE IF e.ev = "error" THEN OnError(S, e)
